@@ -99,10 +99,59 @@ def gen_cases(rng, lays, per_layout, quick):
                     recs.append((t, None))
             nn = [t for t, nk in recs if nk is None]
             lo, hi, wdesc = gen_window(rng, nn, bool(lay["usec_len"]))
+            if rng.random() < 0.25:          # invalid (all-0xFF) entries interleaved
+                for j in range(len(recs)):
+                    if rng.random() < 0.12:
+                        recs[j] = (U.invalid_tv(lay), "ff")
             cases.append(dict(layout=name, ordering=ordering, recs=recs, lo=lo, hi=hi, window=wdesc,
+                              strmode=rng.choice(["normal"] * 6 + U.STR_MODES[1:]),
                               bs_bin=rng.choice([64, 65, 128, 300, 512, 4096, 65536]),
                               bs_proc=rng.choice([1, 7, 16, 33, 64, 300, 512, 4096, 65536]) if n <= 40 else rng.choice([64, 300, 512, 4096, 65536]),
                               container=rng.choice(["plain", "plain", "plain", "gz", "xz", "tar"])))
+    return cases
+
+
+def boundary_cases(rng, lays):
+    """both boundary classes, every run, every layout:
+    (1) C-string fields filled to width-1 / to their full width without a NUL (all at once, one
+        at a time rotating over the fields, mixed);
+    (2) all-0xFF entries at the start / middle / end of the file, one and several, consecutive,
+        with and without -a/-b bounds on record times; plain, .xz and .tar."""
+    cases = []
+    conts = ["plain", "xz", "tar"]
+    k = 0
+    for name, lay in lays.items():
+        has_us = bool(lay["usec_len"])
+
+        def times(n):
+            return [(T0 + rng.randrange(0, 4), rng.choice([0, 1, 999999]) if has_us else 0) for _ in range(n)]
+        # (1) string widths
+        for strmode in U.STR_MODES[1:]:
+            n = rng.choice([3, 4, 5, 6, 8, 9])
+            recs = [(t, None) for t in times(n)]
+            lo, hi, w = gen_window(rng, [t for t, _ in recs], has_us) if strmode == "mixed" else (None, None, "none")
+            cases.append(dict(layout=name, ordering="strings_" + strmode, recs=recs, lo=lo, hi=hi, window=w, strmode=strmode,
+                              bs_bin=rng.choice([64, 300, 65536]), bs_proc=rng.choice([7, 64, 4096]), container=conts[k % 3]))
+            k += 1
+        # (2) invalid entries
+        for where in ("start", "middle", "end", "start_middle_end", "two_consecutive_start", "all_but_one", "with_nulls"):
+            n = rng.choice([5, 6, 7, 9, 11])
+            recs = [(t, None) for t in times(n)]
+            pos = {"start": [0], "middle": [n // 2], "end": [n - 1], "start_middle_end": [0, n // 2, n - 1],
+                   "two_consecutive_start": [0, 1], "all_but_one": [j for j in range(n) if j != n // 2],
+                   "with_nulls": [1, n - 2]}[where]
+            for j in pos:
+                recs[j] = (U.invalid_tv(lay), "ff")
+            if where == "with_nulls":
+                recs[0] = ((0, 0), "zero")
+                recs[n // 2] = ((0, 0), "zerotime")
+            nn = [t for t, nk in recs if nk is None]
+            for wk in ((None, None, "none"),) + ((gen_window(rng, nn, has_us),) if where in ("start", "middle", "end", "start_middle_end") else ()):
+                lo, hi, w = wk
+                cases.append(dict(layout=name, ordering="invalid_" + where, recs=list(recs), lo=lo, hi=hi, window=w,
+                                  strmode=rng.choice(["normal", "normal", "full_all", "mixed"]),
+                                  bs_bin=rng.choice([64, 128, 65536]), bs_proc=rng.choice([1, 33, 512, 65536]), container=conts[k % 3]))
+                k += 1
     return cases
 
 
@@ -114,6 +163,7 @@ def corpus_cases(lays):
             c["recs"] = [((t[0], t[1]), nk) for t, nk in c["recs"]]
             c["lo"] = tuple(c["lo"]) if c["lo"] else None
             c["hi"] = tuple(c["hi"]) if c["hi"] else None
+            c.setdefault("strmode", "normal")
             if c["layout"] in lays:
                 out.append(c)
     return out
@@ -121,18 +171,27 @@ def corpus_cases(lays):
 
 # ----------------------------------------------------------------------------- coq encoding
 def cq_tv(t):
-    return "(%d%%Z, %d%%Z)" % (t[0], t[1])
+    return "((%d)%%Z, (%d)%%Z)" % (t[0], t[1])
 
 
 def cq_opt(t):
     return "None" if t is None else "(Some %s)" % cq_tv(t)
 
 
+def case_tvs(lay, c):
+    """the time values the entries' bytes decode to (null: (0,0); all-0xFF: -1 / the maximum)"""
+    return [(t if nk is None else (U.invalid_tv(lay) if nk == "ff" else (0, 0))) for t, nk in c["recs"]]
+
+
+def bad_fos(lay, c):
+    return [k * lay["size"] for k, (t, nk) in enumerate(c["recs"]) if nk == "ff"]
+
+
 def cq_case(lay, c, impl_fos):
-    tvs = [(t if nk is None else (0, 0)) for t, nk in c["recs"]]
-    return "(%d%%N, %s, %s, [%s], [%s])" % (lay["size"], cq_opt(c["lo"]), cq_opt(c["hi"]),
-                                           "; ".join(cq_tv(t) for t in tvs),
-                                           "; ".join("%d%%N" % f for f in impl_fos))
+    return "(%d%%N, %s, %s, [%s], [%s], [%s])" % (lay["size"], cq_opt(c["lo"]), cq_opt(c["hi"]),
+                                                 "; ".join(cq_tv(t) for t in case_tvs(lay, c)),
+                                                 "; ".join("%d%%N" % f for f in bad_fos(lay, c)),
+                                                 "; ".join("%d%%N" % f for f in impl_fos))
 
 
 HDR = (vlib.COQ_PRINT_HDR + "From Coq Require Import String List NArith ZArith.\nImport ListNotations.\n"
@@ -140,7 +199,7 @@ HDR = (vlib.COQ_PRINT_HDR + "From Coq Require Import String List NArith ZArith.\
 
 
 CASE_TYPES = {"model_bad": "list case08", "spec_bad": "list case08",
-              "bytes_bad": "list (string * string * option tv * option tv * list N)"}
+              "bytes_bad": "list (string * string * option tv * option tv * list N * list N)"}
 
 
 def coq_eval(ctx, subdir, fn, rows_by_index, what):
@@ -168,7 +227,7 @@ def coq_eval(ctx, subdir, fn, rows_by_index, what):
 def write_case_files(d, lays, cases):
     for i, c in enumerate(cases):
         lay = lays[c["layout"]]
-        data = U.build_file(lay, c["recs"])
+        data = U.build_file(lay, c["recs"], c.get("strmode"))
         sub = os.path.join(d, "%04d" % i)
         os.makedirs(sub, exist_ok=True)
         base = U.KIND_NAME[lay["kind"]]
@@ -191,7 +250,7 @@ def bound_arg(t):
 
 
 def run_binary(c):
-    args = ["--color", "never", "-u", "-d", DT_FMT, "--blocksz", str(c["bs_bin"])]
+    args = ["--color", "never", "-s", "-u", "-d", DT_FMT, "--blocksz", str(c["bs_bin"])]
     if c["lo"] is not None:
         args += ["-a", U.iso(c["lo"])]
     if c["hi"] is not None:
@@ -222,13 +281,13 @@ def judge_binary(lay, c, rc, out, err):
         tv, nk = c["recs"][i]
         fos.append(i * lay["size"])
         if nk is not None:
-            problems.append("null record %d printed" % i)
+            problems.append("%s entry %d printed" % ("invalid (all-0xFF)" if nk == "ff" else "null", i))
             continue
         if (int(m.group(1)), int(m.group(2))) != tuple(tv):
             problems.append("record %d printed with instant %s.%s, stored %s" % (i, m.group(1), m.group(2), tv))
-        for lab, pat in U.expected_patterns(lay, i, tv):
+        for lab, pat in U.expected_patterns(lay, i, tv, c.get("strmode")):
             if not re.search(pat, body):
-                problems.append("record %d: field %s not rendered with its own value: %r" % (i, lab, body[:200]))
+                problems.append("record %d: field %s not rendered with exactly its own value: %r" % (i, lab, body[:400]))
                 break
     return fos, problems, nul, len(lines)
 
@@ -251,8 +310,30 @@ def lastlog32_read_as_utmp40(c):
     return any(all(0x20 <= b <= 0x7E for b in int(t[0]).to_bytes(8, "little", signed=True)[:4]) for t in first if t[0] > 0)
 
 
+def utmpx_read_as_freebsd(lays_ref, c):
+    """input part of the class of the second recorded detection finding: the file size is also a
+    multiple of the entry size of ANOTHER layout and the string fields are filled (almost) to their
+    width (the scorer rewards every printable byte, so a misaligned reading of long strings can
+    outscore the right one).  The class is consulted only for failures whose symptom is a wrong
+    layout reported by the implementation itself (see detection_symptom)."""
+    lay = lays_ref[c["layout"]]
+    fsz = len(c["recs"]) * lay["size"]
+    if fsz == 0 or c.get("strmode", "normal") == "normal":
+        return False
+    return any(o["size"] != lay["size"] and fsz % o["size"] == 0 for o in lays_ref.values())
+
+
+def detection_symptom(c, err, nlines):
+    """the s4 binary itself (--summary) reports another layout than the one the file was written in,
+    or reports none and prints nothing (FixedStructReader::new failed)"""
+    m = re.search(rb"fixedstructtype: (Fs_\w+)", err)
+    if m:
+        return m.group(1).decode() != c["layout"]
+    return nlines == 0
+
+
 def case_public(c):
-    return dict(layout=c["layout"], ordering=c["ordering"], window=c["window"],
+    return dict(layout=c["layout"], ordering=c["ordering"], window=c["window"], strmode=c.get("strmode", "normal"),
                 recs=[[list(t), nk] for t, nk in c["recs"]], lo=list(c["lo"]) if c["lo"] else None,
                 hi=list(c["hi"]) if c["hi"] else None, bs_bin=c["bs_bin"], bs_proc=c["bs_proc"], container=c["container"])
 
@@ -274,11 +355,11 @@ def evaluate(ctx, lays_ref, cases, do_b=True):
     d = vlib.scratch_dir("C08")
     write_case_files(d, lays_ref, cases)
     stats = dict(model_disagreements=0, spec_failures=0, nul_cases=0, misdetected=0, bytes_cases=0,
-                 harness_decoder_mismatch=0, printed_records=0)
+                 harness_decoder_mismatch=0, printed_records=0, unexpected_entry_errors=0, rendered_inprocess=0, render_mismatch=0, b_skipped_detection_class=0)
     # ---------------- B: in-process reader vs model
     if do_b:
-        lines = ["%s\t%d\t%d\t%s\t%s" % (c["plain_path"], U.KINDS.index(lays_ref[c["layout"]]["kind"]), c["bs_proc"],
-                                        bound_arg(c["lo"]), bound_arg(c["hi"])) for c in cases]
+        lines = ["%s\t%d\t%d\t%s\t%s%s" % (c["plain_path"], U.KINDS.index(lays_ref[c["layout"]]["kind"]), c["bs_proc"],
+                                          bound_arg(c["lo"]), bound_arg(c["hi"]), "\tR" if len(c["recs"]) <= 16 else "") for c in cases]
         outl, err = vlib.harness("c08", lines, timeout=900)
         if outl is None or len(outl) != len(lines):
             ctx.obligation_broken("correspondence", "harness c08 run", err)
@@ -293,12 +374,28 @@ def evaluate(ctx, lays_ref, cases, do_b=True):
                         stats["misdetected"] += 1
                         impl = None
                     else:
+                        bad = set(bad_fos(lay, c))
                         for e in tok[2:]:
-                            if not re.fullmatch(r"\d+:-?\d+:-?\d+:-?\d+:-?\d+", e):
+                            me = re.fullmatch(r"E(\d+)", e)
+                            if me:          # process_entry_at -> Err((Some(next), _)): nothing sent, loop continues
+                                if int(me.group(1)) not in bad:
+                                    stats["unexpected_entry_errors"] += 1
+                                continue
+                            if not re.fullmatch(r"\d+:-?\d+:-?\d+:-?\d+:-?\d+(?::[0-9a-f]*)?", e):
                                 impl = None
                                 break
-                            fo, s, u, ds, du = (int(x) for x in e.split(":"))
+                            parts = e.split(":")
+                            fo, s, u, ds, du = (int(x) for x in parts[:5])
                             impl.append(fo)
+                            if len(parts) > 5 and fo % lay["size"] == 0 and fo // lay["size"] < len(c["recs"]):
+                                k = fo // lay["size"]
+                                text = bytes.fromhex(parts[5]).replace(b"\x00", b"").decode("utf-8", "replace").rstrip("\n")
+                                stats["rendered_inprocess"] += 1
+                                if c["recs"][k][1] is None and any(not re.search(pat, text) for _, pat in U.expected_patterns(lay, k, c["recs"][k][0], c.get("strmode"))):
+                                    stats["render_mismatch"] += 1
+                                    if stats["render_mismatch"] == 1:
+                                        ctx.obligation_broken("correspondence", "FixedStruct::as_bytes (in-process) vs the written field values",
+                                                              json.dumps(dict(case=case_public(c), record=k, rendered=text[:600])))
                             k = fo // lay["size"]
                             wrote = tuple(c["recs"][k][0]) if (fo % lay["size"] == 0 and k < len(c["recs"])) else None
                             if (s, u) != (ds, du) or wrote != (s, u):
@@ -307,8 +404,13 @@ def evaluate(ctx, lays_ref, cases, do_b=True):
                     impl = []          # nothing is sent to the printer
                 else:
                     impl = None
+                if tok[0] == "NEW" and utmpx_read_as_freebsd(lays_ref, c) and U.spec_order(c["recs"], c["lo"], c["hi"]):
+                    stats["b_skipped_detection_class"] += 1
+                    continue           # reader creation failed on a file of the recorded detection class
                 if impl is None:
-                    if c["layout"] in UNREACHABLE or (tok[0] == "OK" and tok[1] != c["layout"] and lastlog32_read_as_utmp40(c)):
+                    if c["layout"] in UNREACHABLE or (tok[0] == "OK" and tok[1] != c["layout"]
+                                                      and (lastlog32_read_as_utmp40(c) or utmpx_read_as_freebsd(lays_ref, c))):
+                        stats["b_skipped_detection_class"] += 1
                         continue       # covered by the failing-input search (class of a recorded finding)
                     ctx.obligation_broken("correspondence", "FixedStructReader (in-process) vs Model.Records.records_out_K2",
                                           json.dumps(dict(case=case_public(c), harness_line=o[:400])))
@@ -319,8 +421,9 @@ def evaluate(ctx, lays_ref, cases, do_b=True):
                 rows.append((i, cq_case(lay, c, impl)))
                 if len(c["recs"]) <= 12 and len(brows) < 64:
                     data = open(c["plain_path"], "rb").read()
-                    brows.append((i, '("%s", "%s", %s, %s, [%s])' % (c["layout"], data.hex(), cq_opt(c["lo"]), cq_opt(c["hi"]),
-                                                                     "; ".join("%d%%N" % f for f in impl))))
+                    brows.append((i, '("%s", "%s", %s, %s, [%s], [%s])' % (c["layout"], data.hex(), cq_opt(c["lo"]), cq_opt(c["hi"]),
+                                                                           "; ".join("%d%%N" % f for f in bad_fos(lay, c)),
+                                                                           "; ".join("%d%%N" % f for f in impl))))
             bad = coq_eval(ctx, "model", "model_bad", rows, "correspondence")
             if bad:
                 stats["model_disagreements"] += len(bad)
@@ -334,6 +437,9 @@ def evaluate(ctx, lays_ref, cases, do_b=True):
                 i = sorted(badb)[0]
                 ctx.obligation_broken("correspondence", "reader vs model through the regenerated layout row (decode_tv)",
                                       json.dumps(dict(case=case_public(cases[i]), harness_line=outl[i][:400], code=badb[i])))
+            if stats["unexpected_entry_errors"]:
+                ctx.obligation_broken("correspondence", "process_entry_at returned Err for an entry that is not all-0xFF",
+                                      "%d entries" % stats["unexpected_entry_errors"])
             if stats["harness_decoder_mismatch"]:
                 ctx.obligation_broken("correspondence", "tv_pair of printed entries vs harness-side decoder vs written values",
                                       "%d entries" % stats["harness_decoder_mismatch"])
@@ -345,14 +451,15 @@ def evaluate(ctx, lays_ref, cases, do_b=True):
         lay = lays_ref[c["layout"]]
         fos, problems, nul, nlines = judge_binary(lay, c, rc, out, err)
         stats["printed_records"] += nlines
-        judged[i] = (fos, problems, nul, nlines, err[-300:].decode("utf-8", "replace"))
+        errs = b"\n".join(l for l in err.split(b"\n") if l.startswith(b"ERROR") or l.startswith(b"WARNING"))
+        judged[i] = (fos, problems, nul, nlines, errs[-300:].decode("utf-8", "replace"), detection_symptom(c, err, nlines))
         if fos is not None:
             rows.append((i, cq_case(lay, c, fos)))
     bad = coq_eval(ctx, "spec", "spec_bad", rows, "spec-evaluation")
     if bad is None:
         bad = {}
     for i, c in enumerate(cases):
-        fos, problems, nul, nlines, errtxt = judged[i]
+        fos, problems, nul, nlines, errtxt, wrong_layout = judged[i]
         exp = [k * lays_ref[c["layout"]]["size"] for k in U.spec_order(c["recs"], c["lo"], c["hi"])]
         wrong = (fos is None) or (i in bad) or bool(problems)
         if wrong:
@@ -362,6 +469,8 @@ def evaluate(ctx, lays_ref, cases, do_b=True):
                 cls.append("gz_container_and_file_larger_than_one_block")
             if lastlog32_read_as_utmp40(c):
                 cls.append("netbsd_lastlog_size_multiple_of_40_with_printable_time_bytes")
+            if wrong_layout and utmpx_read_as_freebsd(lays_ref, c):
+                cls.append("size_multiple_of_another_layout_with_long_strings")
             ctx.failure(case_public(c), dict(record_offsets_in_order=exp, note="Coq spec_records; python rendering shown"),
                         dict(record_offsets_in_order=fos, problems=problems[:5], stderr=errtxt), cls)
         elif nul:
@@ -394,8 +503,8 @@ def run(ctx):
             ctx.obligation_broken("translator", "regenerated layout table differs from the frozen reference", json.dumps(sorted(diff)))
     except Exception as e:
         ctx.obligation_broken("translator", "fixedstruct_tables.json unreadable", repr(e))
-    per_layout = 26 if quick else 420
-    cases = corpus_cases(lays_ref) + gen_cases(ctx.rng, lays_ref, per_layout, quick)
+    per_layout = 18 if quick else 420
+    cases = corpus_cases(lays_ref) + boundary_cases(ctx.rng, lays_ref) + gen_cases(ctx.rng, lays_ref, per_layout, quick)
     stats = evaluate(ctx, lays_ref, cases, do_b=ok)
     # ---------------- evidence
     seen, nt = set(), 0
@@ -416,7 +525,8 @@ def run(ctx):
     ctx.coverage.update(
         evaluations=len(cases), distinct_nontrivial=nt,
         rule="one case = (layout of the frozen reference table, record list with time values in one of five orderings "
-             "[sorted, reversed, shuffled, all equal, few distinct seconds], null records interleaved [all-zero entry or zero time], "
+             "[sorted, reversed, shuffled, all equal, few distinct seconds], null records interleaved [all-zero entry or zero time], invalid all-0xFF entries interleaved [start/middle/end, one/several], "
+             "C-string fields short / width-1 / full width without NUL [all at once, rotating, mixed], "
              "window [none / bounds exactly on record times / one microsecond inside / before or after all], block size, container); "
              "each case runs in-process (vs model) and through the s4 binary (vs spec). non-trivial = at least two records kept and "
              "(a tie of time values, or file order different from time order, or a null record present, or a bound equal to a kept record's time); "
@@ -424,6 +534,9 @@ def run(ctx):
         samples=[case_public(cases[i]) for i in (0, len(cases) // 2)],
         layouts=sorted(set(c["layout"] for c in cases)), layout_count=len(set(c["layout"] for c in cases)),
         ordering_histogram=hist(lambda c: c["ordering"]), window_histogram=hist(lambda c: c["window"]),
+        string_mode_histogram=hist(lambda c: c.get("strmode", "normal")),
+        cases_with_invalid_entries=sum(1 for c in cases if any(nk == "ff" for _, nk in c["recs"])),
+        invalid_entries_total=sum(1 for c in cases for _, nk in c["recs"] if nk == "ff"),
         container_histogram=hist(lambda c: c["container"]), blocksz_binary_histogram=hist(lambda c: c["bs_bin"]),
         blocksz_inprocess_histogram=hist(lambda c: c["bs_proc"]),
         record_count_histogram=hist(lambda c: min(len(c["recs"]) // 25 * 25, 200)),
@@ -431,6 +544,8 @@ def run(ctx):
         **stats)
     ctx.assumptions += [
         "the frozen reference layouts (checks/c08_ref_layouts.json) are the platforms' struct layouts; they were taken from the crate's struct definitions and cross-checked against the harness's hand-written time decoder and the C headers quoted in the source",
+        "an entry whose bytes are all 0xFF is invalid: it is not a record (nothing is printed for it) and every other record is still printed once in time order; rule implemented in the model: it takes part in the ordering under the time value its bytes decode to and is dropped when it would be sent (records_sent), tied by run B including the position of the Err in the walk",
+        "a C-string field holds exactly its bytes up to the first NUL or up to its width, whichever comes first",
         "time values are in-domain: seconds in 2023..2024 (inside the plausibility range the scorer expects), microseconds in [0, 999999]",
         "layout detection (score_file over a HashMap) is exercised, not modelled: a mis-detected file shows up as a failing input",
         "decoders of .gz/.xz/.tar are exercised, not modelled (C05)",
@@ -449,6 +564,7 @@ def replay(ctx, path):
         c["recs"] = [((t[0], t[1]), nk) for t, nk in c["recs"]]
         c["lo"] = tuple(c["lo"]) if c["lo"] else None
         c["hi"] = tuple(c["hi"]) if c["hi"] else None
+        c.setdefault("strmode", "normal")
         cases.append(c)
     if not cases:
         print("nothing to replay (obligation replay: run ./check C08)")
